@@ -3,8 +3,14 @@
 // both builds report a hash of the sequence (as vertex words) per case; the orchestrator (spec.py "extra") requires
 // one single hash per case across all builds and settings.
 #include <gudhi/Simplex_tree.h>
+#include <gudhi/Bitmap_cubical_complex.h>
+#include <gudhi/Bitmap_cubical_complex_base.h>
+#include <gudhi/Bitmap_cubical_complex_periodic_boundary_conditions_base.h>
 #include "common/vh.h"
 #include <thread>
+#include <limits>
+#include <set>
+#include <map>
 #include <atomic>
 #include <mutex>
 #include <unordered_map>
@@ -212,7 +218,110 @@ void case_big(vh::Case& c) {
   c.sample("{\"vertices\":" + vh::str(b.n) + ",\"simplices\":" + vh::str(len) + ",\"settings\":" + vh::str(settings) + ",\"threads_seen\":" + vh::str(tids.size()) + "}");
 }
 
+
+// ---- cubical complexes (Bitmap_cubical_complex.h is one of the anchors of C03): the filtration order of a cubical complex
+// has to be a function of the filtered complex alone as well.  Grids with very few distinct values (ties dominate) and
+// more cells than tbb::parallel_sort's sequential cut-off are sorted under several thread limits; one hash per case
+// within a build, and the orchestrator requires the TBB and the non-TBB build to report the same hash.  Only validity
+// and determinism are judged here, never one particular tie-break (C13 checks the incidence structure).
+typedef Gudhi::cubical_complex::Bitmap_cubical_complex_base<double> CBase;
+typedef Gudhi::cubical_complex::Bitmap_cubical_complex<CBase> CPlain;
+typedef Gudhi::cubical_complex::Bitmap_cubical_complex_periodic_boundary_conditions_base<double> CPBase;
+typedef Gudhi::cubical_complex::Bitmap_cubical_complex<CPBase> CPeriodic;
+
+template <class CC>
+uint64_t cubical_sequence_hash(vh::Case& c, CC& cc, const std::string& sig, size_t& len) {
+  cc.initialize_filtration();
+  const size_t n = cc.num_simplices();
+  std::vector<char> seen(n, 0);
+  uint64_t h = 1469598103934665603ULL;
+  size_t i = 0; double prev = -std::numeric_limits<double>::infinity();
+  for (auto sh : cc.filtration_simplex_range()) {
+    if ((size_t)sh >= n || seen[sh]) { c.violation("order.duplicate", sig, "cell listed twice / not a cell at " + vh::str(i)); return 0; }
+    double f = cc.filtration(sh);
+    if (f < prev) { c.violation("order.decreasing", sig, "value decreases at position " + vh::str(i)); return 0; }
+    prev = f;
+    for (auto b : cc.boundary_simplex_range(sh))
+      if (!seen[b]) { c.violation("order.face_after_coface", sig, "a face is listed after its coface at position " + vh::str(i)); return 0; }
+    seen[sh] = 1;
+    h = vh::hash_mix(h, (uint64_t)sh);
+    ++i;
+  }
+  len = i;
+  if (i != n) { c.violation("order.missing", sig, "sequence has " + vh::str(i) + " of " + vh::str(n) + " cells"); return 0; }
+  return h;
+}
+
+template <class CC>
+void cubical_run(vh::Case& c, CC& cc, const std::string& kind) {
+  const int limits[] = {1, 2, 3, 4, 8, 16};
+  std::set<uint64_t> hashes; size_t len = 0;
+  for (int li = 0; li < 6; ++li) {
+#ifdef GUDHI_USE_TBB
+    tbb::global_control gc(tbb::global_control::max_allowed_parallelism, limits[li]);
+#else
+    if (li > 1) break;
+#endif
+    int nspin = (int)c.rng.below(5);
+    g_stop = false;
+    std::vector<std::thread> sp; for (int i = 0; i < nspin; ++i) sp.emplace_back(spinner);
+    uint64_t h = cubical_sequence_hash(c, cc, kind + ",limit=" + vh::str(limits[li]), len);
+    g_stop = true; for (auto& t : sp) t.join();
+    if (c.failed) return;
+    hashes.insert(h);
+    c.count("cmp.cubical_sort");
+  }
+  if (hashes.size() != 1) { c.violation("order.not_deterministic", "cubical," + kind + ",within_build", vh::str(hashes.size()) + " distinct sequences for the same cubical complex across thread limits"); return; }
+  c.count("seqhash|cub:" + vh::str(c.k) + "|" + vh::str(*hashes.begin()));
+  if (len > 500) c.count("cubical.above_parallel_sort_cutoff");
+  if (len >= 500) c.nontrivial(*hashes.begin());
+  c.sample("{\"cubical\":\"" + kind + "\",\"cells\":" + vh::str(len) + "}");
+}
+
+void case_cubical(vh::Case& c) {
+  vh::Rng& r = c.rng;
+#ifdef GUDHI_USE_TBB
+  {
+    static bool warmed = false;
+    if (!warmed) { std::vector<int> w(100000); for (size_t i = 0; i < w.size(); ++i) w[i] = (int)((i * 7919) % 100003); tbb::parallel_sort(w.begin(), w.end()); warmed = true; }
+  }
+#endif
+  int dim = 1 + (int)r.below(3);
+  std::vector<unsigned> sizes(dim);
+  size_t tops = 1;
+  // 1-D: 300..3000 top cells; 2-D: sides 12..60; 3-D: sides 4..14
+  for (int d = 0; d < dim; ++d) {
+    sizes[d] = dim == 1 ? 300 + (unsigned)r.below(2700) : dim == 2 ? 12 + (unsigned)r.below(49) : 4 + (unsigned)r.below(11);
+    tops *= sizes[d];
+  }
+  int levels = 1 + (int)r.below(5);   // 1..5 distinct values
+  bool from_vertices = r.chance(1, 4);
+  size_t nvals = tops;
+  if (from_vertices) { nvals = 1; for (int d = 0; d < dim; ++d) nvals *= sizes[d] + 1; }
+  std::vector<double> vals(nvals);
+  for (auto& v : vals) v = (double)r.below(levels);
+  if (r.chance(1, 8)) vals[r.below(nvals)] = std::numeric_limits<double>::infinity();
+  c.log("cubical dim=" + vh::str(dim) + " tops=" + vh::str(tops) + " levels=" + vh::str(levels) + (from_vertices ? " from vertices" : " from top cells"));
+  bool periodic = !from_vertices && r.chance(1, 2);
+  if (periodic) for (int d = 0; d < dim; ++d) if (sizes[d] < 3) periodic = false;
+  if (periodic) {
+    std::vector<bool> dirs(dim); bool any = false;
+    for (int d = 0; d < dim; ++d) { dirs[d] = r.chance(1, 2); any = any || dirs[d]; }
+    if (!any) dirs[r.below(dim)] = true;
+    CPeriodic cc(sizes, vals, dirs);
+    cubical_run(c, cc, "periodic");
+  } else if (from_vertices) {
+    std::vector<unsigned> vsizes(sizes); for (auto& x : vsizes) x += 1;
+    CPlain cc(vsizes, vals, false);
+    cubical_run(c, cc, "plain_from_vertices");
+  } else {
+    CPlain cc(sizes, vals);
+    cubical_run(c, cc, "plain");
+  }
+}
+
 }  // namespace
 
 VH_CONFIG("big", case_big);
+VH_CONFIG("cubical", case_cubical);
 VH_MAIN()
